@@ -1,7 +1,8 @@
 #!/bin/sh
 # runs every claimed check of one tier, prints a one-line summary per property
 tier="${1:-quick}"
-cd /verif
+cd "$(dirname "$0")/.." || exit 2
+export VERIF_DIR="$PWD"
 for p in $(python3 -c "import json;print(' '.join(c['property_id'] for c in json.load(open('MANIFEST.json'))['checks']))"); do
   s=$(date +%s)
   out=$(./check $p --tier $tier 2>/tmp/sweep.$p.err)
